@@ -178,6 +178,9 @@ func c05R2(c *Ctx, rule string) {
 	// Less direction
 	asc, lessOK := lessDirection(c, sortType)
 	c.Check(rule, "recalculate:less-shape", c.P.InstrPos(sortCall), "the sort's Less is p[i] < p[j] (ascending) or p[i] > p[j] (descending)", lessOK, pick(lessOK, pick(asc, "ascending", "descending"), "unrecognised Less body for "+c.P.TypeStr(sortType)), 1)
+	if n, ok := sortType.(*types.Named); ok {
+		sortSupportSound(c, rule, n.Obj().Name())
+	}
 	if !lessOK {
 		return
 	}
